@@ -6,40 +6,56 @@ From Coq Require Import String.
 Open Scope list_scope.
 Open Scope N_scope.
 
-(* (a) the generated fast path writes exactly what the general identifier quoting writes.
-   96 = backtick (MySQL), 34 = double quote (Postgres, SQLite). All names, no bound. *)
+(* (a) the generated fast path writes exactly what the general identifier quoting writes, for every
+   Quote(left, right): Iden::quoted doubles the RIGHT quote byte, prepare writes left, quoted, right;
+   the derive writes left, name, right. The right byte is any ASCII byte that is not an identifier
+   char (backtick 96, double quote 34, closing bracket 93, ...); left is arbitrary. All names, no bound. *)
 Theorem C19_fast_path_is_general_quoting :
-  forall (name : str) (q : N),
-    must_be_valid_iden name = true -> q = 96 \/ q = 34 ->
-    fast_prepare q name = iden_prepare q name.
+  forall (name : str) (q : quote),
+    must_be_valid_iden name = true ->
+    (q_right q <? 128) && negb ((q_right q =? 95) || is_ascii_alphanumeric (q_right q)) = true ->
+    fast_prepare q name = general_prepare q name.
 Proof. exact fast_path_is_general_quoting. Qed.
 Print Assumptions C19_fast_path_is_general_quoting.
 
+Check (eq_refl : general_prepare =
+  fun q name => q_left q :: replace_char (q_right q) [q_right q; q_right q] name ++ [q_right q]).
+Check (eq_refl : fast_prepare = fun q name => q_left q :: name ++ [q_right q]).
+(* with left = right this is the identifier quoting of C04 *)
+Check (fun q name => eq_refl : general_prepare (sym_quote q) name = iden_prepare q name).
+
 Example C19_fast_path_instance :
+  let br := {| q_left := 91; q_right := 93 |} in
   must_be_valid_iden (K "http_server2_go") = true
-  /\ fast_prepare 34 (K "http_server2_go") = iden_prepare 34 (K "http_server2_go")
+  /\ fast_prepare (sym_quote 34) (K "http_server2_go") = general_prepare (sym_quote 34) (K "http_server2_go")
+  /\ fast_prepare br (K "font_size") = K "[font_size]"
+  /\ general_prepare br (K "font_size") = K "[font_size]"
+  /\ general_prepare br (K "a[b]") = K "[a[b]]]"
   /\ must_be_valid_iden (K "a""b") = false
-  /\ fast_prepare 34 (K "a""b") <> iden_prepare 34 (K "a""b").
+  /\ fast_prepare (sym_quote 34) (K "a""b") <> general_prepare (sym_quote 34) (K "a""b").
 Proof. repeat split; try reflexivity. discriminate. Qed.
 
 (* the same at the level of whole type definitions: whatever the derive emits for a type (the fast
    `prepare` when every variant name is a valid iden, nothing otherwise), `prepare` of every value is
-   the general quoting of its name *)
+   the general quoting of its name, under every such Quote *)
 Theorem C19_derived_prepare_is_general_quoting :
-  forall (menv : method_env) (t : tydef) (v : value) (q : N),
-    q = 96 \/ q = 34 ->
-    derived_prepare menv q t v = option_map (iden_prepare q) (unquoted menv t v).
+  forall (menv : method_env) (t : tydef) (v : value) (q : quote),
+    (q_right q <? 128) && negb ((q_right q =? 95) || is_ascii_alphanumeric (q_right q)) = true ->
+    derived_prepare menv q t v = option_map (general_prepare q) (unquoted menv t v).
 Proof. exact derived_prepare_is_general. Qed.
 Print Assumptions C19_derived_prepare_is_general_quoting.
 
 (* one invalid rename makes the whole type fall back to the general path (is_all_valid) *)
 Example C19_is_all_valid_instance :
   let vs := [ {| v_ident := K "FontSize"; v_fields := FUnit; v_attrs := [] |};
-              {| v_ident := K "Odd"; v_fields := FUnit; v_attrs := [MIdenEq (K "a""b")] |} ] in
+              {| v_ident := K "Odd"; v_fields := FUnit; v_attrs := [MIdenEq (K "a""b]")] |} ] in
+  let br := {| q_left := 91; q_right := 93 |} in
   has_fast_prepare (DEnum (K "Glyph") [] vs) = false
   /\ has_fast_prepare (DEnum (K "Glyph") [] (firstn 1 vs)) = true
-  /\ derived_prepare (fun _ _ => []) 34 (DEnum (K "Glyph") [] vs) (VVariant 1 None) = Some (K """a""""b""")
-  /\ derived_prepare (fun _ _ => []) 34 (DEnum (K "Glyph") [] vs) (VVariant 0 None) = Some (K """font_size""").
+  /\ derived_prepare (fun _ _ => []) (sym_quote 34) (DEnum (K "Glyph") [] vs) (VVariant 1 None) = Some (K """a""""b]""")
+  /\ derived_prepare (fun _ _ => []) br (DEnum (K "Glyph") [] vs) (VVariant 1 None) = Some (K "[a""b]]]")
+  /\ derived_prepare (fun _ _ => []) (sym_quote 34) (DEnum (K "Glyph") [] vs) (VVariant 0 None) = Some (K """font_size""")
+  /\ derived_prepare (fun _ _ => []) br (DEnum (K "Glyph") [] (firstn 1 vs)) (VVariant 0 None) = Some (K "[font_size]").
 Proof. repeat split; reflexivity. Qed.
 
 (* (b) the naming function is the documented naming: rename overrides; the Table variant is the
@@ -113,7 +129,7 @@ Example C19_unit_struct_brace_instance :
   unquoted (fun _ _ => []) (DUnit (K "B") [MIdenEq (K "b{{x}}")]) VUnit = Some (K "b{{x}}")
   /\ as_str (fun _ _ => []) (DUnit (K "B") [MIdenEq (K "b{{x}}")]) VUnit = Some (K "b{{x}}")
   /\ unquoted (fun _ _ => []) (DUnit (K "B") [MIdenEq (K "{}")]) VUnit = Some (K "{}")
-  /\ derived_prepare (fun _ _ => []) 34 (DUnit (K "B") [MIdenEq (K "{}")]) VUnit = Some (K """{}""")
+  /\ derived_prepare (fun _ _ => []) (sym_quote 34) (DUnit (K "B") [MIdenEq (K "{}")]) VUnit = Some (K """{}""")
   /\ unquoted (fun _ _ => []) (DUnit (K "r#Struct") []) VUnit = Some (K "struct").
 Proof. repeat split; reflexivity. Qed.
 
